@@ -31,9 +31,12 @@ ASSUMPTIONS = [
     '(reference run on an identical scratch directory); whether that content is the right one is C16/C08',
     'the processing order of glob matches is an input of the model (taken from stdlib glob.glob on the scratch '
     'directory); the set of matches is fixed by construction of the generator',
-    'single-fault plans (plus the double fault "rename/write fails and os.remove fails too"); symlinks, hard '
-    'links, relative paths through other directories, creation of missing out directories for in-place edits, '
-    'concurrent writers and Windows are outside the modelled domain',
+    'single-fault plans (plus the double fault "rename/write fails and os.remove fails too"); creation of missing '
+    'out directories for in-place edits, concurrent writers and Windows are outside the modelled domain',
+    'same-file-ness: the link table handed to the model (spelling -> entry = os.path.realpath, entry -> inode id = '
+    'os.lstat) is read from the scratch tree by the harness before the run; that CPython os.path.samefile / '
+    'isfile agree with it is validated by the correspondence only. An `in` path whose LAST component is a symlink '
+    '(os.replace then replaces the link, not its target) is outside the model: monitor only',
 ]
 
 
@@ -161,6 +164,72 @@ def base_scenarios(quick):
                 name = '-'.join(f'{k}={v}' for k, v in enc.items())
                 out.append(mk('enc-' + name, [[a, spec_for(step, 3, 'A')]] + other,
                               {'kind': 'single', 'paths': [a]}, [a], None, enc))
+        out += alias_scenarios(step, ext)
+    return out
+
+
+
+# --------------------------------------------------------------------------
+# "out equal to in": every way two paths can name one file (and negative controls)
+# --------------------------------------------------------------------------
+
+ALIAS_FORMS = [
+    # name,                 in (path, relative), out (kind, path, relative),   same file?, modelled
+    ('same-string',         ('A', False),   ('same', 'A', False),            True, True),
+    ('in-abs-out-rel',      ('A', False),   ('same', 'A', True),             True, True),
+    ('in-rel-out-abs',      ('A', True),    ('same', 'A', False),            True, True),
+    ('dotdot',              ('A', False),   ('same', 'sub/../A', False),     True, True),
+    ('dot-rel',             ('A', True),    ('same', './sub/.././A', True),  True, True),
+    ('symlink-file',        ('A', False),   ('same', 'LN', False),           True, True),
+    ('symlink-chain',       ('A', False),   ('same', 'LN2', False),          True, True),
+    ('symlink-dir',         ('SB', False),  ('same', 'lnd/B', False),        True, True),
+    ('symlink-dir-outdir',  ('SB', False),  ('dir', 'lnd', False),           True, True),
+    ('in-via-symlink-dir',  ('lnd/B', False), ('same', 'SB', False),         True, True),
+    ('hardlink',            ('A', False),   ('same', 'HL', False),           True, True),
+    ('hardlink-other-dir',  ('A', False),   ('same', 'sub/HL2', False),      True, True),
+    ('hardlink-rel',        ('A', True),    ('same', 'HL', True),            True, True),
+    ('symlink-to-hardlink', ('A', False),   ('same', 'LNHL', False),         True, True),
+    ('hardlink-outdir',     ('A', False),   ('dir', 'hd', False),            True, True),
+    # negative controls: another file with the same bytes
+    ('ctl-copy',            ('A', False),   ('file', 'COPY', False),         False, True),
+    ('ctl-symlink-to-copy', ('A', False),   ('file', 'LNCOPY', False),       False, True),
+    ('ctl-same-name-dir',   ('A', False),   ('dir', 'cd', False),            False, True),
+    # `in` itself is a symlink (last component): outside the model, monitor only
+    ('in-is-symlink',       ('LN', False),  None,                            True, False),
+    ('in-is-symlink-out-target', ('LN', False), ('same', 'A', False),        True, False),
+]
+
+
+def alias_scenarios(step, ext):
+    """One base scenario per aliasing form: a.ext (3 lines/tokens) and sub/b.ext (2), plus symlinks, hard
+    links and copies of them; `in` is one path, `out` another spelling / link / copy."""
+    a, b = 'a' + ext, 'b' + ext
+    names = {'A': a, 'B': b, 'SB': 'sub/' + b, 'LN': 'ln' + ext, 'LN2': 'ln2' + ext, 'HL': 'hl' + ext,
+             'HL2': 'hl2' + ext, 'LNHL': 'lnhl' + ext, 'COPY': 'copy' + ext, 'LNCOPY': 'lncopy' + ext}
+
+    def nm(pat):
+        return '/'.join(names.get(seg, seg) for seg in pat.split('/'))
+
+    files = [[a, spec_for(step, 3, 'A')], ['sub/' + b, spec_for(step, 2, 'B')],
+             ['other.dat', {'raw': 'unmatched {k1} {missing}\n'}], ['sub/x.bin', {'raw': 'nested unmatched'}]]
+    links = [['symlink', nm('LN'), a], ['symlink', nm('LN2'), nm('LN')], ['symlink', 'lnd', 'sub'],
+             ['hardlink', nm('HL'), a], ['hardlink', nm('sub/HL2'), a], ['symlink', nm('LNHL'), nm('HL')],
+             ['hardlink', 'hd/' + a, a], ['copy', nm('COPY'), a], ['symlink', nm('LNCOPY'), nm('COPY')],
+             ['copy', 'cd/' + a, a]]
+    out = []
+    for name, (ipat, irel), ospec, same, modelled in ALIAS_FORMS:
+        inp = nm(ipat)
+        src = {'A': a, 'SB': 'sub/' + b, 'lnd/B': 'sub/' + b, 'LN': a}[ipat]      # the entry `in` resolves to
+        scn = {'step': step, 'layout': 'alias-' + name, 'files': files, 'dirs': [], 'links': links,
+               'in': {'kind': 'single', 'paths': [inp], 'relative': irel}, 'out': None, 'enc': {}, 'ctx': CTX,
+               'matched': [src], 'expect_inplace': same, 'modelled': modelled,
+               'probe': {'path': inp, 'spec': src, 'out': None}}
+        if ospec:
+            kind, opat, orel = ospec
+            scn['out'] = {'kind': kind, 'path': nm(opat), 'relative': orel}
+            if not same:
+                scn['probe']['out'] = {'COPY': nm('COPY'), 'LNCOPY': nm('COPY'), 'cd': 'cd/' + a}[opat]
+        out.append(scn)
     return out
 
 
@@ -206,48 +275,58 @@ def planted_spec(scn, rel, spec):
     return {'doc': doc}
 
 
-def new_content_problem(scn, ref_after):
-    """Compare what the fault-free reference run left in each matched source with the content the
-    generator constructed (text: byte-exact; documents: equal after parsing). None if all good."""
+def content_problem(scn, spec_rel, got, what='a successful rewrite'):
+    """Is `got` (bytes) the complete new content of the file whose content spec is `spec_rel`, as constructed
+    by the generator (text: byte-exact; documents: equal after parsing)? None if yes, else a description."""
     step = scn['step']
     e = scn.get('enc') or {}
     enc_out = e.get('encodingOut', e.get('encoding')) or 'utf-8'
     specs = dict((rel, spec) for rel, spec in scn['files'])
+    spec = planted_spec(scn, spec_rel, specs[spec_rel])
+    try:
+        if 'lines' in spec:
+            text = ''.join(spec['lines'])
+            if step == 'fileformat':
+                want = subst(text)
+            else:
+                want = text
+                for a, b in (scn.get('replace') or {'l': 'L'}).items():
+                    want = want.replace(a, subst(b))
+            if got.decode(enc_out) != want:
+                return f'{spec_rel}: {what} left {got.decode(enc_out)!r}, constructed new content {want!r}'
+        else:
+            want = subst_doc(spec['doc'])
+            if step == 'fileformatjson':
+                import json
+                have = json.loads(got.decode(enc_out))
+            elif step == 'fileformatyaml':
+                import ruamel.yaml
+                have = ruamel.yaml.YAML(typ='safe', pure=True).load(got.decode(enc_out))
+            else:
+                import tomllib
+                have = tomllib.loads(got.decode('utf-8'))
+            if have != want:
+                return f'{spec_rel}: {what} left a document equal to {have!r}, constructed {want!r}'
+    except Exception as ex:  # undecodable / unparsable output
+        return f'{spec_rel}: output of {what} cannot be read back: {type(ex).__name__}: {ex}'
+    return None
+
+
+def new_content_problem(scn, ref_after):
+    """Compare what the fault-free reference run left in each matched source with the content the
+    generator constructed. None if all good."""
     for src in scn['matched']:
         if not is_inplace(scn, src):
             continue
-        spec = planted_spec(scn, src, specs[src])
-        got = bytes.fromhex(ref_after.get(src, ''))
-        try:
-            if 'lines' in spec:
-                text = ''.join(spec['lines'])
-                if step == 'fileformat':
-                    want = subst(text)
-                else:
-                    want = text
-                    for a, b in (scn.get('replace') or {'l': 'L'}).items():
-                        want = want.replace(a, subst(b))
-                if got.decode(enc_out) != want:
-                    return f'{src}: a successful rewrite left {got.decode(enc_out)!r}, constructed new content {want!r}'
-            else:
-                want = subst_doc(spec['doc'])
-                if step == 'fileformatjson':
-                    import json
-                    have = json.loads(got.decode(enc_out))
-                elif step == 'fileformatyaml':
-                    import ruamel.yaml
-                    have = ruamel.yaml.YAML(typ='safe', pure=True).load(got.decode(enc_out))
-                else:
-                    import tomllib
-                    have = tomllib.loads(got.decode('utf-8'))
-                if have != want:
-                    return f'{src}: a successful rewrite left a document equal to {have!r}, constructed {want!r}'
-        except Exception as ex:  # undecodable / unparsable output
-            return f'{src}: output of a successful rewrite cannot be read back: {type(ex).__name__}: {ex}'
+        prob = content_problem(scn, src, bytes.fromhex(ref_after.get(src, '')))
+        if prob:
+            return prob
     return None
 
 
 def is_inplace(scn, src):
+    if 'expect_inplace' in scn:       # aliasing family: known by construction of the scenario
+        return scn['expect_inplace']
     o = I.canonical_out(scn, src)
     return o is None or os.path.normpath(o) == os.path.normpath(src)
 
@@ -307,7 +386,7 @@ def model_request(scn, obs):
         chunks = rj['chunks']
         k = len(chunks)
         inplace = is_inplace(scn, src)
-        jobs.append({'src': src, 'out': I.canonical_out(scn, src), 'tmp': tmp_name(src, pos), 'style': style,
+        jobs.append({'src': src, 'out': I.out_spelling(scn, src), 'tmp': tmp_name(src, pos), 'style': style,
                      'chunks': chunks})
         if fault and fault['src'] == src and not plan:
             n = fault.get('n', 0)
@@ -321,7 +400,7 @@ def model_request(scn, obs):
                 plan.append([p + 1, 'raise'])
         offset += n_ops(style, k, inplace)
     fs = [[name, data] for name, data in obs['before'].items()]
-    return {'fs': fs, 'jobs': jobs, 'plan': plan, 'cleanup': True}
+    return {'fs': fs, 'jobs': jobs, 'plan': plan, 'cleanup': True, 'links': obs['links']}
 
 
 def canonical_after(obs):
@@ -333,11 +412,108 @@ def canonical_after(obs):
     return dict(sorted((tmap.get(name, name), data) for name, data in obs['after'].items()))
 
 
+def real_out(scn, obs, src):
+    """The directory entry the out path of the job for `src` resolves to (None: no out)."""
+    sp = I.out_spelling(scn, src)
+    if sp is None:
+        return None
+    return dict(map(tuple, obs['links']['entry'])).get(sp, os.path.normpath(sp))
+
+
+def _short(hx):
+    if hx is None:
+        return '<no such file>'
+    b = bytes.fromhex(hx)
+    return repr(b[:60]) + ('…' if len(b) > 60 else '') + f' ({len(b)} bytes)'
+
+
+def alias_monitor(scn, obs):
+    """The property statement on one run whose `out` is another name of `in` (or, for the controls, another
+    file): the bytes read through the source path before the run, after every observable operation, at the
+    fault and after the run; the directory listing before/after; every other entry. Independent of the
+    model. Returns [(clause, text)]."""
+    pr = scn['probe']
+    fault = scn.get('fault') or {}
+    end = obs['outcome']['end']
+    orig, after = obs['probe_before'], obs['probe_after']
+    snaps = [orig] + list(obs.get('seen') or []) + [after]
+    probs = []
+    newness = {}
+
+    def is_new(hx):
+        if hx not in newness:
+            newness[hx] = hx is not None and content_problem(scn, pr['spec'], bytes.fromhex(hx)) is None
+        return newness[hx]
+
+    if scn['expect_inplace']:
+        for k, hx in enumerate(snaps):
+            if hx != orig and not is_new(hx):
+                probs.append(('srcWhole', f'instant {k} of {len(snaps)}: the source path holds {_short(hx)}, neither the '
+                                          f'complete original {_short(orig)} nor the complete new content'))
+                break
+        if end == 'raised' and after != orig:
+            probs.append(('origIntactOnFailure', f'the step raised {obs["outcome"].get("exc")} but the source path holds '
+                                                 f'{_short(after)} instead of the original {_short(orig)}'))
+        if end == 'ok' and not is_new(after):
+            probs.append(('okNew', 'the step ended ok but the source path does not hold the complete new content: '
+                          + str(content_problem(scn, pr['spec'], bytes.fromhex(after or '')))))
+    else:
+        for k, hx in enumerate(snaps):
+            if hx != orig:
+                probs.append(('inTouchedByOtherOut', f'instant {k}: out is a different file, yet the source path holds '
+                                                     f'{_short(hx)} instead of {_short(orig)}'))
+                break
+        if end == 'ok':
+            got = obs['after'].get(pr['out'])
+            prob = content_problem(scn, pr['spec'], bytes.fromhex(got or ''), 'a successful write to out')
+            if got is None or prob:
+                probs.append(('outNotWritten', f'the step ended ok but out ({pr["out"]}) does not hold the new content: {prob}'))
+    # ---- directory entries
+    nb, na = obs['names_before'], obs['names_after']
+    missing = sorted(set(nb) - set(na))
+    extra = sorted(set(na) - set(nb))
+    if missing:
+        probs.append(('entryMissing', f'entries disappeared: {missing}'))
+    tolerated = (end == 'killed') or bool(fault.get('remove_fails'))
+    bad_extra = [n for n in extra if not (tolerated and os.path.basename(n).startswith('tmp'))]
+    if bad_extra:
+        tmpish = all(os.path.basename(n).startswith('tmp') for n in bad_extra)
+        probs.append(('tempLeftBehind' if tmpish else 'extraEntry',
+                      f'after a run that ended {end} the directory has extra entries {bad_extra}'))
+    # ---- everything else is untouched: same kind, same link target, same bytes
+    own = {obs['src_entry']}
+    if not scn['expect_inplace'] and pr.get('out'):
+        own.add(pr['out'])
+    for name, kind in nb.items():
+        if name in own or name not in na:
+            continue
+        if na[name] != kind:
+            probs.append(('otherTouched', f'entry {name} was {kind}, is now {na[name]}'))
+        elif kind == 'F' and obs['before'].get(name) != obs['after'].get(name):
+            probs.append(('otherTouched', f'{name} is not matched by in, held {_short(obs["before"].get(name))}, '
+                                          f'now holds {_short(obs["after"].get(name))}'))
+    return probs
+
+
 def run_case(drv, scn):
     """Returns a record: {case, model, impl, mismatch?, verdict?, counts}."""
     obs = I.observe(scn)
     fault = scn.get('fault')
     rec = {'case': scn, 'counts': []}
+    if scn.get('probe'):
+        rec['alias'] = alias_monitor(scn, obs)
+        rec['alias_obs'] = {'end': obs['outcome'], 'source_path_bytes': [obs['probe_before']] + list(obs['seen'])
+                            + [obs['probe_after']], 'names_before': obs['names_before'],
+                            'names_after': obs['names_after'], 'events': obs['events'],
+                            'route': ['direct' if j.get('direct') else 'inplace' if j.get('tmp') else 'undecided'
+                                      for j in obs['jobs']]}
+        rec['counts'] += ['alias-form:' + scn['layout'][6:], 'alias-end:' + str(obs['outcome']['end'])]
+    if scn.get('modelled') is False:
+        rec['counts'] += ['step:' + scn['step'], 'layout:alias', 'monitor-only',
+                          'fault:' + (f"{fault['op']}/{fault['kind']}/{fault['via']}" if fault else 'none')]
+        rec['impl'] = {'end': obs['outcome']['end'], 'events': obs['events']}
+        rec['impl_detail'] = {'outcome': obs['outcome'], 'before': obs['before'], 'order': obs['order']}
+        return rec
     req = model_request(scn, obs)
     try:
         m = drv.ask('fsrewrite.run', **req)
@@ -356,7 +532,7 @@ def run_case(drv, scn):
     if fault and fault['kind'] == 'kill':
         # direct route: bytes still in the writer's buffer when the process died never reached the file
         for src in scn['matched']:
-            o = I.canonical_out(scn, src)
+            o = real_out(scn, obs, src)
             if not is_inplace(scn, src) and o in after and o in mfinal and mfinal[o].startswith(after[o]):
                 after[o] = mfinal[o]
     drop = {'fmt', 'fmt!'}
@@ -378,6 +554,19 @@ def run_case(drv, scn):
         notes.append('bytes of a leftover temp file are not a prefix of what the model wrote to it')
     if not m.get('wholeEverywhere', True):
         notes.append('model trace contains a state in which a source is neither original nor new')
+    # ---- the route taken, job by job (as far as the implementation got)
+    mroutes, iroutes = [], []
+    for pos, j in enumerate(obs['jobs']):
+        if j.get('direct'):
+            iroutes.append('direct:' + str(j.get('out')))
+        elif j.get('tmp'):
+            iroutes.append('inplace')
+        else:
+            continue
+        mroutes.append(m['routes'][pos] if pos < len(m.get('routes', [])) else None)
+    model['routes'], impl['routes'] = mroutes, iroutes
+    if mroutes != iroutes:
+        notes.append(f'route differs: model {mroutes}, implementation {iroutes}')
     if model != impl:
         notes.append('observations differ')
     if notes:
@@ -407,6 +596,18 @@ def run_case(drv, scn):
     return rec
 
 
+def _spelled(path, relative):
+    return repr(path) + ' (relative to cwd=<root>)' if relative else repr('<root>/' + path)
+
+
+def _spelled_out(scn):
+    o = scn.get('out')
+    if not o:
+        return 'None'
+    rel = o.get('relative', scn['in'].get('relative'))
+    return _spelled(o['path'] + ('/' if o['kind'] in ('dir', 'newdir') else ''), rel)
+
+
 def absorb(res, rec):
     scn = rec['case']
     for c in rec.get('counts', []):
@@ -416,6 +617,18 @@ def absorb(res, rec):
         res.mismatch(scn, {'reject': rec['reject']}, None, 'driver rejected a generated case')
         return
     res.case(scn, nontrivial=bool(scn.get('fault')))
+    if rec.get('alias'):
+        fault = scn.get('fault') or {}
+        clauses = sorted({c for c, _ in rec['alias']})
+        what = ('out is another name of the in file' if scn['expect_inplace'] else 'out is a different file (control)')
+        res.violation(
+            scn,
+            f"aliasing form {scn['layout'][6:]} ({what}; in={_spelled(scn['in']['paths'][0], scn['in'].get('relative'))}, "
+            f"out={_spelled_out(scn)}): " + ' | '.join(t for _, t in rec['alias']),
+            signature={'site': 'is_same_file', 'step': scn['step'], 'form': scn['layout'][6:],
+                       'clauses': ','.join(clauses),
+                       'fault': f"{fault.get('op', 'none')}/{fault.get('kind', '-')}/{fault.get('via', '-')}"},
+            impl=rec.get('alias_obs'))
     if 'mismatch' in rec:
         res.mismatch(scn, rec['model'], rec['impl'], rec['mismatch'])
     if rec.get('ref_problem'):
@@ -494,7 +707,12 @@ def run(env, res):
                 'every modelled point of every matched file (sameFile, openRead, mkTemp, fmt k, write k, close, replace '
                 'x raise|kill; natural faults: missing key, unserialisable node, malformed source; double fault with '
                 'os.remove failing). quick = all op kinds at first/middle/last k + seeded sample of the rest; '
-                'thorough = exhaustive. non-trivial = a case with a fault')
+                'thorough = exhaustive. Aliasing family: 5 steps x 20 forms of out vs in (identical string, relative vs '
+                'absolute, .., symlink, symlink chain, symlinked directory, hard link (same dir / other dir / relative / '
+                'through a symlink / as out directory), controls: copy, symlink to a copy, same name in another '
+                'directory; in itself a symlink: monitor only) x {no fault, formatting failure, write fault first/last, '
+                'rename fault, death at first write} (+1 random point) in quick, every fault point in thorough; the '
+                'source path is read after every observable operation. non-trivial = a case with a fault')
     workers = env.n(8, 14)
     bases = base_scenarios(env.quick)
     # phase 1: every base scenario fault-free (also yields the number of writes per file)
@@ -513,12 +731,35 @@ def run(env, res):
                         ks[order[cur]] = 0
                 elif e == 'write' and 0 <= cur < len(order):
                     ks[order[cur]] += 1
+        if b['layout'].startswith('alias-'):
+            # the number of writes is needed to place the faults even if the fault-free run went wrong
+            for src in b['matched']:
+                if not ks.get(src):
+                    spec = dict((rel, sp) for rel, sp in b['files'])[src]
+                    ks[src] = len(spec['lines']) if 'lines' in spec else 1
         ks_of.append(ks)
     # phase 2: faults
     cases = []
     for b, ks in zip(bases, ks_of):
         pts = fault_points(b, ks)
-        if env.quick:
+        if b['layout'].startswith('alias-'):
+            # aliasing forms x {formatting failure, write fault, rename fault, death while writing}
+            if env.quick:
+                def want(f, k=None):
+                    k = ks.get(f['src'], 0)
+                    if f.get('remove_fails') or f.get('first'):
+                        return False
+                    if f['via'] in ('missing', 'serialise'):
+                        return f['n'] in (0, 1, k)
+                    if f['via'] == 'inject' and f['op'] == 'write':
+                        return (f['kind'] == 'raise' and f['n'] in (1, k)) or (f['kind'] == 'kill' and f['n'] == 1)
+                    return f['via'] == 'inject' and f['op'] == 'replace' and f['kind'] == 'raise'
+                rest = [f for f in pts if not want(f)]
+                env.rng.shuffle(rest)
+                pts = [f for f in pts if want(f)] + rest[:1]
+            if not b['expect_inplace']:
+                pts = [f for f in pts if f['op'] not in ('replace', 'mkTemp')]
+        elif env.quick:
             core = b['layout'] in ('single-3', 'list-2', 'same-dotslash', 'glob-3')
             keep = []
             for f in pts:
